@@ -3,7 +3,7 @@
 (* on a real StorageManager.                                                  *)
 EXTENDS AkdStorage, Json
 
-CONSTANTS Export, MaxSteps, WithReads, SplitReads
+CONSTANTS Export, MaxSteps, WithReads, SplitReads, WithExt
 
 VARIABLES path, steps
 
@@ -35,6 +35,7 @@ MCNext ==
   \/ \E u \in Users, e \in Epochs, res \in {"ok", "err"} : Tombstone(u, e, res) /\ Step([op |-> "tombstone", user |-> u, epoch |-> e])
   \/ RejectNext /\ Step([op |-> "reject_next"])
   \/ (HasCache /\ Flush /\ Step([op |-> "flush"]))
+  \/ (HasCache /\ WithExt /\ ~txnActive /\ \E r \in AzksRecs \cup NodeRecs : ExtWrite({r}) /\ Step([op |-> "ext_set", recs |-> <<r>>]))
   \/ (HasCache /\ WithReads /\ \E k \in AllKeys : ReadFill({k}) /\ Step([op |-> "get", key |-> k]))
   \/ (HasCache /\ SplitReads /\ Cardinality(inflight) < 2 /\ \E k \in AllKeys : GetIssue(k) /\ UNCHANGED <<path, steps>>)
   \/ (HasCache /\ SplitReads /\ \E f \in inflight : GetComplete(f) /\ UNCHANGED <<path, steps>>)
